@@ -117,6 +117,7 @@ class Ctx(object):
         self.known_hits = collections.Counter()
         self.known_witness = {}
         self.violation = None
+        self.any_case = None
         self.t0 = time.time()
         self.searches = []
         self.notes = []
@@ -137,6 +138,8 @@ class Ctx(object):
     def run_case(self, driver, case):
         fn = self.module.DRIVERS[driver]
         self.evaluations += 1
+        if not self.samples:
+            self.any_case = (driver, case)
         try:
             res = fn(case)
         except (Violation, HarnessError):
@@ -268,6 +271,9 @@ class Ctx(object):
 
     # ---------------------------------------------------------------- output
     def partial(self):
+        if not self.samples and self.any_case is not None:
+            c = canon(self.any_case[1])
+            self.samples.append((len(c), c, self.any_case[0]))
         return {
             "evaluations": self.evaluations,
             "nt": [h.hex() for h in self.nt_hashes],
@@ -346,7 +352,7 @@ def write_evidence(module, tier, seed, merged, wall, violations, shards):
         "wall_s": round(wall, 3),
         "violations": violations,
     }
-    d = os.path.join(VERIF, "evidence")
+    d = os.environ.get("VERIF_EVIDENCE_DIR") or os.path.join(VERIF, "evidence")
     os.makedirs(d, exist_ok=True)
     tmp = os.path.join(d, module.PROPERTY + ".json.tmp")
     with open(tmp, "w") as f:
@@ -357,7 +363,7 @@ def write_evidence(module, tier, seed, merged, wall, violations, shards):
 
 
 def save_replay(v, pid):
-    d = os.path.join(VERIF, "out", "replays")
+    d = os.environ.get("VERIF_REPLAY_DIR") or os.path.join(VERIF, "out", "replays")
     os.makedirs(d, exist_ok=True)
     body = {"property": pid, "driver": v.driver, "tag": v.tag, "detail": v.detail, "case": v.case}
     h = case_hash([v.driver, v.case])[:8]
